@@ -16,6 +16,7 @@ import os, re, sys, json, random, shutil, subprocess, hashlib, concurrent.future
 VERIF = os.path.dirname(os.path.dirname(os.path.abspath(__file__)))
 REPO = "/repo"
 ROOT = "/tmp/mut"
+SURV = os.environ.get("MUT_SURV", "survivors.json"); RES = os.environ.get("MUT_RES", "results.json")
 sys.path.insert(0, VERIF)
 
 
@@ -73,14 +74,14 @@ def mutants_of(lines, lo, hi):
             pass
 
 
-def build_and_test(tag, mutated_src):
+def build_and_test(tag, mutated_src, target="confuse.c"):
     d = os.path.join(ROOT, "w_" + tag)
     shutil.rmtree(d, ignore_errors=True)
     os.makedirs(d + "/src")
     for f in os.listdir(REPO + "/src"):
         if f.endswith((".c", ".h", ".l")) and f != "lexer.c":
             shutil.copy(REPO + "/src/" + f, d + "/src/" + f)
-    open(d + "/src/confuse.c", "w").write(mutated_src)
+    open(d + "/src/" + target, "w").write(mutated_src)
     shutil.copy(REPO + "/config.h", d + "/config.h")
     os.symlink(REPO + "/tests", d + "/tests")
     p = subprocess.run([VERIF + "/tools/native_build_and_test.sh", d, d + "/_nb"], stdout=subprocess.PIPE, stderr=subprocess.STDOUT, text=True, env=dict(os.environ, EXTRA_CFLAGS="-Werror=implicit-function-declaration"))
@@ -92,16 +93,21 @@ def gen(args):
     import units
     per = int(opt(args, "--per-func", "6")); seed = int(opt(args, "--seed", "1")); only = opt(args, "--funcs", "")
     named = " ".join(u["func"] for u in units.UNITS if u.get("func"))
-    src = open(REPO + "/src/confuse.c").read(); lines = src.split("\n")
+    target = opt(args, "--file", "confuse.c")
+    src = open(REPO + "/src/" + target).read(); lines = src.split("\n")
     rnd = random.Random(seed)
     os.makedirs(ROOT, exist_ok=True)
     todo = []
     cap = {}
     notunder = []
-    for name, lo, hi in functions(src):
+    regions = functions(src)
+    if target == "lexer.l":
+        marks = [k for k, l in enumerate(lines) if l.startswith("%%")]
+        regions = [("lexer_rules", marks[0] + 1, marks[1] - 1)] + [(n, lo, hi) for n, lo, hi in regions if lo > marks[1]]
+    for name, lo, hi in regions:
         if only and name not in only.split(","):
             continue
-        if not re.search(r"\b%s\b" % re.escape(name), named):
+        if target == "confuse.c" and not re.search(r"\b%s\b" % re.escape(name), named):
             notunder.append(name); continue
         ms = list(mutants_of(lines, lo, hi))
         rnd.shuffle(ms)
@@ -109,43 +115,46 @@ def gen(args):
         todo += [(name, ln, op, new) for ln, op, new in ms[:cap[name] * 4]]
     print("functions not named by any unit:", ", ".join(notunder))
     print("candidate mutants:", len(todo))
-    surv = json.load(open(ROOT + "/survivors.json")) if (os.path.exists(ROOT + "/survivors.json") and "--append" in args) else {}
+    surv = json.load(open(ROOT + "/" + SURV)) if (os.path.exists(ROOT + "/" + SURV) and "--append" in args) else {}
     percount = {}
 
     def one(t):
         name, ln, op, new = t
         ml = list(lines); old = ml[ln]; ml[ln] = new
         tag = hashlib.sha1(("%s:%d:%s" % (name, ln, op)).encode()).hexdigest()[:10]
-        rc, tail = build_and_test(tag, "\n".join(ml))
+        rc, tail = build_and_test(tag, "\n".join(ml), target)
         return t, tag, rc, old
     with cf.ThreadPoolExecutor(int(opt(args, "--jobs", "6"))) as ex:
         for t, tag, rc, old in ex.map(one, todo):
             name, ln, op, new = t
             if rc == 0 and percount.get(name, 0) < cap[name]:
                 percount[name] = percount.get(name, 0) + 1
-                surv[tag] = dict(func=name, line=ln + 1, op=op, old=old, new=new)
-    json.dump(surv, open(ROOT + "/survivors.json", "w"), indent=1)
+                surv[tag] = dict(func=name, line=ln + 1, op=op, old=old, new=new, target=target)
+    json.dump(surv, open(ROOT + "/" + SURV, "w"), indent=1)
     print("survivors kept:", len(surv), "(per function cap: body lines / %d, 4..60)" % per)
 
 
 def run(args):
     import units
-    surv = json.load(open(ROOT + "/survivors.json"))
-    done = json.load(open(ROOT + "/results.json")) if os.path.exists(ROOT + "/results.json") else {}
-    vcopy = ROOT + "/verif"
+    surv = json.load(open(ROOT + "/" + SURV))
+    done = json.load(open(ROOT + "/" + RES)) if os.path.exists(ROOT + "/" + RES) else {}
+    vcopy = ROOT + "/verif_" + RES.replace(".json", "")
     shutil.rmtree(vcopy, ignore_errors=True)
     subprocess.run(["rsync", "-a", "--exclude", ".git", "--exclude", "evidence", "--exclude", "replays", "--exclude", "seeded", VERIF + "/", vcopy + "/"], check=True)
     os.makedirs(vcopy + "/evidence", exist_ok=True)
-    lines0 = open(REPO + "/src/confuse.c").read().split("\n")
+    lines0 = {t: open(REPO + "/src/" + t).read().split("\n") for t in ("confuse.c", "lexer.l")}
 
     def units_for(fn):
+        if fn == "__lexer__":
+            return [u["name"] for u in units.UNITS if u.get("tu") == "lexer" and "quick" in u.get("tiers", ("quick", "thorough"))]
         return [u["name"] for u in units.UNITS if u.get("func") and re.search(r"\b%s\b" % re.escape(fn), u["func"]) and "quick" in u.get("tiers", ("quick", "thorough"))]
 
     def one(item):
         tag, m = item
         if tag in done:
             return tag, done[tag]
-        us = units_for(m["func"])
+        tgt = m.get("target", "confuse.c")
+        us = units_for("__lexer__" if tgt == "lexer.l" else m["func"])
         cost = {u["name"]: u.get("cost", 10) for u in units.UNITS}
         cheap = [n for n in us if cost[n] <= 100]; dear = [n for n in us if cost[n] > 100]
         d = ROOT + "/r_" + tag
@@ -153,14 +162,14 @@ def run(args):
         for f in os.listdir(REPO + "/src"):
             if f.endswith((".c", ".h", ".l")) and f != "lexer.c":
                 shutil.copy(REPO + "/src/" + f, d + "/src/" + f)
-        ml = list(lines0)
+        ml = list(lines0[tgt])
         at = [k for k in range(max(0, m["line"] - 12), min(len(ml), m["line"] + 12)) if ml[k] == m["old"]]
         if not at:
             shutil.rmtree(d, ignore_errors=True)
             return tag, dict(m, units=0, exit=3, failed_units=[], undecided=["line moved"])
         at.sort(key=lambda k: abs(k - (m["line"] - 1)))
         ml[at[0]] = m["new"]
-        open(d + "/src/confuse.c", "w").write("\n".join(ml))
+        open(d + "/src/" + tgt, "w").write("\n".join(ml))
         shutil.copy(REPO + "/config.h", d + "/config.h")
         failed = []; undec = []; rc = 0
         for stage in (cheap, dear):
@@ -179,7 +188,7 @@ def run(args):
         items = list(surv.items()); random.Random(7).shuffle(items)
         for tag, r in ex.map(one, items):
             done[tag] = r
-            json.dump(done, open(ROOT + "/results.json", "w"), indent=1)
+            json.dump(done, open(ROOT + "/" + RES, "w"), indent=1)
             print("%-10s %-26s line %-5d %-10s exit=%d %s" % (tag, r["func"], r["line"], r["op"], r["exit"], ",".join(r["failed_units"][:3])), flush=True)
     shutil.rmtree(vcopy, ignore_errors=True)
     alive = [r for r in done.values() if r["exit"] == 0]
